@@ -451,6 +451,74 @@ impl SerialPortSettings for InstrSettings {
     }
 }
 
+/// A port that implements `SerialPort` DIRECTLY (not through `SerialDevice`) and is careful about it: `reconfigure` first
+/// REHEARSES the caller's setup on scratch copies of its settings (`rehearsals` times — does it go through at all?) and
+/// only then runs it on the live ones. The setup is an `Fn`: it may be called any number of times, and the last call
+/// counts.
+pub struct CarefulPort {
+    pub st: Shared,
+    pub rehearsals: usize,
+}
+
+impl Read for CarefulPort {
+    fn read(&mut self, _buf: &mut [u8]) -> io::Result<usize> {
+        Err(io::Error::new(io::ErrorKind::TimedOut, "nothing on the line"))
+    }
+}
+
+impl Write for CarefulPort {
+    fn write(&mut self, buf: &[u8]) -> io::Result<usize> {
+        self.st.borrow_mut().written.extend_from_slice(buf);
+        Ok(buf.len())
+    }
+    fn flush(&mut self) -> io::Result<()> {
+        Ok(())
+    }
+}
+
+impl serial_core::SerialPort for CarefulPort {
+    fn timeout(&self) -> Duration {
+        self.st.borrow().timeout.unwrap_or(Duration::ZERO)
+    }
+    fn set_timeout(&mut self, timeout: Duration) -> serial_core::Result<()> {
+        self.st.borrow_mut().timeout = Some(timeout);
+        Ok(())
+    }
+    fn configure(&mut self, settings: &PortSettings) -> serial_core::Result<()> {
+        self.st.borrow_mut().settings = *settings;
+        Ok(())
+    }
+    fn reconfigure(&mut self, setup: &dyn Fn(&mut dyn SerialPortSettings) -> serial_core::Result<()>) -> serial_core::Result<()> {
+        let cur = self.st.borrow().settings;
+        for _ in 0..self.rehearsals {
+            let mut scratch = InstrSettings { cur, st: shared(cur) };
+            setup(&mut scratch)?;
+        }
+        let mut live = InstrSettings { cur, st: self.st.clone() };
+        setup(&mut live)?;
+        self.st.borrow_mut().settings = live.cur;
+        Ok(())
+    }
+    fn set_rts(&mut self, _level: bool) -> serial_core::Result<()> {
+        Ok(())
+    }
+    fn set_dtr(&mut self, _level: bool) -> serial_core::Result<()> {
+        Ok(())
+    }
+    fn read_cts(&mut self) -> serial_core::Result<bool> {
+        Ok(false)
+    }
+    fn read_dsr(&mut self) -> serial_core::Result<bool> {
+        Ok(false)
+    }
+    fn read_ri(&mut self) -> serial_core::Result<bool> {
+        Ok(false)
+    }
+    fn read_cd(&mut self) -> serial_core::Result<bool> {
+        Ok(false)
+    }
+}
+
 /// Where the port's data bytes come from / go to.
 pub enum Wiring {
     /// Scripted reader (reply tape) and scripted writer.
